@@ -1,6 +1,7 @@
 (* Property C12 — A transaction keeps its identity across all representations.
    This file holds only the property theorems; proofs are in Proofs_TxSerialize.v.
    H (SHA3-256) and base64 are universally quantified. *)
+From Coq Require Import String.
 From Goloop Require Import lib.Bytes Model_Address Model_TxSerialize Proofs_TxSerialize Proofs_TxStruct.
 
 (* the serialisation can be read back: lexing and parsing what serializeValue
@@ -106,3 +107,47 @@ Print Assumptions C12_struct_equivalences.
 Theorem C12_canonical_int_text : forall z, parse_hexint (fmt_z z) = Some z.
 Proof. exact parse_fmt_z. Qed.
 Print Assumptions C12_canonical_int_text.
+
+(* ------------------------------------------------------------------ *)
+(* Where the statement "changing any signed field changes the id" fails *)
+(* in the implemented format (known findings; replayed on the code from *)
+(* corpus/C12 on every run).  The theorems above are the strongest      *)
+(* true statements: injectivity up to `norm` per hash path.             *)
+(* ------------------------------------------------------------------ *)
+
+(* F1: leading empty strings of a list leave no trace (serializeList) *)
+Theorem C12_leading_empty_refuted :
+  let d1 := JList [JStr []; JStr (str "a"%string)] in let d2 := JList [JStr (str "a"%string)] in
+  d1 <> d2
+  /\ (forall (H : bytes -> bytes) dec t1 t2,
+        from_json H dec (JObj (wit_map d1)) = Ok t1 -> from_json H dec (JObj (wit_map d2)) = Ok t2 ->
+        id H t1 = id H t2)
+  /\ (exists t1 t2, from_json ex_H ex_dec (JObj (wit_map d1)) = Ok t1
+                    /\ from_json ex_H ex_dec (JObj (wit_map d2)) = Ok t2)
+  /\ ~ data_change_changes_id d1 d2.
+Proof. exact leading_empty_refuted. Qed.
+Print Assumptions C12_leading_empty_refuted.
+
+(* F2: the struct hash writes dataType unescaped: a stored transaction and a
+   JSON transaction with different content share their id for every H *)
+Theorem C12_datatype_unescaped_refuted :
+  t_dataType ex_f_struct = Some (str "message.extra.b"%string)
+  /\ lookup (str "dataType"%string) ex_m_json = Some (JStr (str "message"%string))
+  /\ wf_fields ex_f_struct = true /\ wf_sig (t_sig ex_f_struct) = true
+  /\ (forall (H : bytes -> bytes) dec t,
+        from_json H dec (JObj ex_m_json) = Ok t -> id H t = id H (TxStruct ex_f_struct))
+  /\ (exists t, from_json ex_H ex_dec (JObj ex_m_json) = Ok t).
+Proof. exact datatype_unescaped_refuted. Qed.
+Print Assumptions C12_datatype_unescaped_refuted.
+
+(* a JSON number inside data is hashed as the decimal text of int64(float64) *)
+Theorem C12_number_string_refuted :
+  let d1 := JObj [(str "a"%string, JNum 1)] in let d2 := JObj [(str "a"%string, JStr (str "1"%string))] in
+  d1 <> d2
+  /\ (forall (H : bytes -> bytes) dec t1 t2,
+        from_json H dec (JObj (wit_map d1)) = Ok t1 -> from_json H dec (JObj (wit_map d2)) = Ok t2 ->
+        id H t1 = id H t2)
+  /\ (exists t1 t2, from_json ex_H ex_dec (JObj (wit_map d1)) = Ok t1
+                    /\ from_json ex_H ex_dec (JObj (wit_map d2)) = Ok t2).
+Proof. exact number_string_refuted. Qed.
+Print Assumptions C12_number_string_refuted.
